@@ -483,8 +483,8 @@ Proof.
   cbn [spent_outputs map outs_ok]. fold (spent_outputs n body). rewrite IH, andb_true_r.
   unfold expected_out. destruct (o <? 0) eqn:E0; [reflexivity|].
   destruct (states n !! (o / 10)).
-  - destruct (o mod 10 <? NOUTS); [apply Z.eqb_refl|]. rewrite orb_true_r. reflexivity.
-  - destruct (o mod 10 <? NOUTS); [apply Z.eqb_refl|]. rewrite Z.eqb_refl. reflexivity.
+  - destruct (o mod 10 <? nouts (o / 10)); [apply Z.eqb_refl|]. rewrite orb_true_r. reflexivity.
+  - destruct (o mod 10 <? nouts (o / 10)); [apply Z.eqb_refl|]. rewrite Z.eqb_refl. reflexivity.
 Qed.
 
 (* ---------------------------------------------------------------------------------------- *)
